@@ -501,3 +501,52 @@ _RUN_SETTINGS = (
 T("C07", "twin-run-verbs-from-settings", CL, _RUN_SUBMIT, _RUN_SETTINGS.format(verb="SETTING_C2_VERB_POST"))
 M("C07", "run-verbs-from-wrong-setting", CL, _RUN_SUBMIT, _RUN_SETTINGS.format(verb="SETTING_C2_VERB_GET"), "C07.R4")
 M("C07", "run-submit-verb-text", CL, "        self.submit_verb: bytes = self.c2http.submit_verb\n", "        self.submit_verb: str = self.c2http.submit_verb.decode()\n", "C07.R4")
+
+# =============================================================================================== R8: the router is complete
+# (a request with the verb and the URI prefix of a route gets that route whatever the tests on the other route say - the
+# two verbs may be the same string - and a response gets the response transform)
+# 'dispatch on the verb first': correct when the two verb tests are independent statements ...
+_R8_VERB_FIRST = (
+    "        http = parse_raw_http(http) if isinstance(http, bytes) else http\n"
+    "\n"
+    "        if isinstance(http, HttpResponse):\n"
+    "            return self.transform_response\n"
+    "\n"
+    "        if isinstance(http, HttpRequest):\n"
+    "            if http.method == self.{first}_verb:\n"
+    "                if http.uri.startswith(self.{first_uri}):\n"
+    "                    return self.transform_{first}\n"
+    "            {kw} http.method == self.{second}_verb:\n"
+    "                if http.uri.startswith(self.{second_uri}):\n"
+    "                    return self.transform_{second}\n"
+)
+T("C07", "twin-router-verb-first-independent", C2, _ROUTER, _R8_VERB_FIRST.format(first="get", first_uri="get_uris", second="submit", second_uri="submit_uri", kw="if") + _RAISE)
+T("C07", "twin-router-verb-first-submit-first", C2, _ROUTER, _R8_VERB_FIRST.format(first="submit", first_uri="submit_uri", second="get", second_uri="get_uris", kw="if") + _RAISE)
+# ... and broken when the second verb test is the `elif` of the first: with `set verb` making both verbs equal the second
+# route is never tried (here the mirror image of the seeded change: the check-in route is the one that is lost)
+M("C07", "router-verb-first-elif-get-lost", C2, _ROUTER, _R8_VERB_FIRST.format(first="submit", first_uri="submit_uri", second="get", second_uri="get_uris", kw="elif") + _RAISE, "C07.R8")
+# the URI test of the first verb stays in the condition, only the second route is nested: equivalent to the flat chain
+T("C07", "twin-router-second-route-nested", C2,
+  "            elif http.method == self.submit_verb and http.uri.startswith(self.submit_uri):\n                return self.transform_submit\n",
+  "            elif http.method == self.submit_verb:\n                if http.uri.startswith(self.submit_uri):\n                    return self.transform_submit\n")
+# guard clauses: a request with the http-get verb and another URI is rejected before the http-post route is tried
+M("C07", "router-guard-clauses-early-reject-on-get-verb", C2, _ROUTER, _R1_GUARDS.replace(
+    "        if http.method != self.submit_verb or not http.uri.startswith(self.submit_uri):\n",
+    "        if http.method == self.get_verb:\n            raise ValueError(f\"unknown check-in URI {http.uri!r}\")\n"
+    "        if http.method != self.submit_verb or not http.uri.startswith(self.submit_uri):\n"), "C07.R8")
+# single exit: the placeholder survives when the http-get verb matched and its URI did not
+M("C07", "router-single-exit-verb-elif", C2, _ROUTER, _R1_SINGLE.format(tail=_R1_SINGLE_OK).replace(
+    "        if is_request and http.method == self.get_verb and http.uri.startswith(self.get_uris):\n            selected = self.transform_get\n",
+    "        if is_request and http.method == self.get_verb:\n            if http.uri.startswith(self.get_uris):\n                selected = self.transform_get\n"), "C07.R8")
+# flags: the http-post flag additionally demands that the verb is not the http-get verb
+M("C07", "router-conditional-expression-post-excludes-get-verb", C2, _ROUTER,
+  _R1_TERNARY.format(post="http.method != self.get_verb and http.method == self.submit_verb and http.uri.startswith(self.submit_uri)"), "C07.R8")
+# routes told apart by the URI first: a submit URI under the http-get verb test only
+M("C07", "router-uri-first-submit-needs-get-verb-mismatch", C2,
+  "            elif http.method == self.submit_verb and http.uri.startswith(self.submit_uri):\n",
+  "            elif http.method == self.get_verb:\n                pass\n            elif http.method == self.submit_verb and http.uri.startswith(self.submit_uri):\n", "C07.R8")
+# everything that is not a request is rejected before the response test
+M("C07", "router-response-unreachable", C2, _ROUTER, _R1_GUARDS.replace(
+    "        if isinstance(http, HttpResponse):\n            return self.transform_response\n", "").replace(
+    "        return self.transform_submit\n",
+    "        if isinstance(http, HttpResponse):\n            return self.transform_response\n        return self.transform_submit\n"), "C07.R8")
